@@ -36,7 +36,9 @@ def support_for(schema, options):
     ee = {}
     for e in options.get("extern_enums") or []:
         if e in schema.types:
-            ee[e] = list(schema.types[e]["values"])
+            # the consumer defines the enum under the name the generated code refers to
+            rn = names.camel(e) if options.get("normalization") == "rust" else e
+            ee[rn] = list(schema.types[e]["values"])
     if ee:
         sup["extern_enums"] = ee
     return sup
@@ -95,6 +97,8 @@ def resp_vectors(case, rng, n_payloads=8, n_corrupt_bases=0, other_variant=False
                 v = {"id": "%s.x%d" % (vid, ci), "kind": "resp", "target": op["name"], "input": cp, "label": label}
                 if exp == "err":
                     v["expect"] = {"ok": False}
+                elif exp[0] == "unknown-or-err":
+                    v["expect"] = {"ok": True, "unknown_variant_keys": exp[1], "base_expected": e, "err_ok": True}
                 else:
                     v["expect"] = {"ok": True, "unknown_variant_keys": exp[1], "base_expected": e}
                 vecs.append(v)
@@ -116,6 +120,8 @@ def judge_resp(v, obs):
     for rname, o in routes:
         if exp["ok"]:
             if not o.get("ok"):
+                if exp.get("err_ok"):
+                    continue
                 return "deser-error[%s]: %s" % (rname, o.get("err"))
             if "reser" in exp:
                 if "reser" in o and not same(o["reser"], exp["reser"]):
